@@ -17,6 +17,14 @@
    Finish                       body returns on all paths -> phase "emit"
    Emit                         prints <<"HIST", json>>, phase "done"
 
+ Chain mode (ChainK # {}): instead of building token by token, the initial
+ states are ALL if-chains `x T := b; if c1 {B1} else if c2 {B2} ... [else {Bn}];
+ tail` with k \in ChainK `else if` clauses, every block either `return T(10+i)`
+ or `x = T(20+i)` (every combination of returning / falling-through blocks),
+ with and without a final else, conditions `ua8 == u8(v_i)` or `ua8 < u8(w_i)`
+ whose constants are boundary argument values (so the arguments select every
+ branch and the no-branch case), followed by `return x` or `x += b; return x`.
+
  Only the typing rules the language specification states are built in:
  operands of a binary operator have the same type [M]; and/or/not/if take u8
  [B]; comparisons yield u8 [T]; unary minus only on signed types; a function
@@ -33,7 +41,8 @@ CONSTANTS
     LitMax,     \* BOOLEAN: also the literal T(max T)
     UseWide,    \* BOOLEAN: i64 parameter under narrowing casts, casts to i64/u64 at a return
     MaxNodes, MaxStack, MaxLocals, MaxParams, MaxFrames,
-    MinNodes    \* a top-level `return` needs at least this many tokens before it (longer sampled bodies)
+    MinNodes,   \* a top-level `return` needs at least this many tokens before it (longer sampled bodies)
+    ChainK      \* {} = token-by-token mode; else the numbers of `else if` clauses of the chain mode
 
 VARIABLES stk, frames, body, locals, used, retT, nodes, phase
 vars == <<stk, frames, body, locals, used, retT, nodes, phase>>
@@ -249,8 +258,35 @@ Emit == /\ phase = "emit"
         /\ phase' = "done"
         /\ UNCHANGED <<stk, frames, body, locals, used, retT, nodes>>
 
-Init == /\ stk = <<>> /\ frames = <<>> /\ body = <<>> /\ locals = <<>> /\ used = {}
-        /\ retT = "none" /\ nodes = 0 /\ phase = "build"
+\* ---- chain mode ---------------------------------------------------------------
+ChainEq  == <<0, 1, 2, 16>>          \* all of them boundary argument values of u8
+ChainThr == <<1, 2, 16, 127>>
+ChainParName(T) == CASE T = "u8" -> "ub8" [] T = "i8" -> "b8" [] T = "i16" -> "b16" [] T = "u16" -> "ub16"
+                     [] T = "i32" -> "b32" [] T = "u32" -> "ub32"
+ChainCond(op, i) == [k |-> "bin", op |-> op, t |-> "u8", l |-> [k |-> "par", t |-> "u8", n |-> "ua8"],
+                     r |-> [k |-> "lit", t |-> "u8", v |-> IF op = "==" THEN ChainEq[i] ELSE ChainThr[i]]]
+ChainBlk(T, shape, i) == IF shape = "ret" THEN <<[k |-> "ret", e |-> [k |-> "lit", t |-> T, v |-> 10 + i]]>>
+                         ELSE <<[k |-> "set", n |-> "x", e |-> [k |-> "lit", t |-> T, v |-> 20 + i]]>>
+ChainTail(T, tl) == LET rx == [k |-> "ret", e |-> [k |-> "loc", t |-> T, n |-> "x"]] IN
+                    IF tl = 1 THEN <<rx>>
+                    ELSE <<[k |-> "cset", n |-> "x", t |-> T, op |-> "+", e |-> [k |-> "par", t |-> T, n |-> ChainParName(T)]], rx>>
+ChainBody(T, k, sh, hasElse, op, tl) ==
+    << [k |-> "let", n |-> "x", t |-> T, typed |-> TRUE, e |-> [k |-> "par", t |-> T, n |-> ChainParName(T)]],
+       [k |-> "if", arms |-> [i \in 1..(k + 1) |-> [c |-> ChainCond(op, i), b |-> ChainBlk(T, sh[i], i)]],
+        els |-> IF hasElse THEN ChainBlk(T, sh[k + 2], k + 2) ELSE <<>>, hasElse |-> hasElse] >>
+    \o ChainTail(T, tl)
+ChainInit ==
+    \E T \in Types, k \in ChainK, hasElse \in BOOLEAN, op \in {"==", "<"}, tl \in {1, 2} :
+    \E sh \in [1..(k + 2) -> {"ret", "set"}] :
+        /\ ~hasElse => sh[k + 2] = "ret"                              \* unused slot: one representative
+        /\ ~(hasElse /\ \A i \in 1..(k + 2) : sh[i] = "ret")          \* nothing may follow a chain that always returns
+        /\ body = ChainBody(T, k, sh, hasElse, op, tl)
+        /\ locals = <<[n |-> "x", t |-> T]>> /\ used = {"ua8", ChainParName(T)} /\ retT = T
+        /\ stk = <<>> /\ frames = <<>> /\ nodes = 0 /\ phase = "emit"
+
+Init == IF ChainK # {} THEN ChainInit
+        ELSE /\ stk = <<>> /\ frames = <<>> /\ body = <<>> /\ locals = <<>> /\ used = {}
+             /\ retT = "none" /\ nodes = 0 /\ phase = "build"
 Next == PushLeaf \/ NegA \/ NotA \/ CastA \/ BinA \/ SRet \/ SLet \/ SSet \/ SCSet
         \/ SIf \/ SElseIf \/ SElse \/ SEndIf \/ Finish \/ Emit
 GSpec == Init /\ [][Next]_vars
